@@ -13,6 +13,8 @@ import time
 
 VERIF = os.path.dirname(os.path.dirname(os.path.abspath(__file__)))
 REPO = os.environ.get("VERIF_REPO", "/repo")
+# mutant evaluation (bin/mutant) points both at scratch locations; registered commands never set them
+EVID = os.environ.get("VERIF_EVIDENCE_DIR", os.path.join(VERIF, "evidence"))
 SPEC = os.path.join(VERIF, "spec")
 HARNESS = os.path.join(VERIF, "harness")
 NCPU = os.cpu_count() or 4
@@ -401,7 +403,7 @@ class Result:
             return "known"
         key = json.dumps(sig, sort_keys=True)
         h = hashlib.sha1(key.encode()).hexdigest()[:12]
-        d = os.path.join(VERIF, "evidence", "replays")
+        d = os.path.join(EVID, "replays")
         os.makedirs(d, exist_ok=True)
         path = os.path.join(d, "%s-%s.json" % (self.prop, h))
         if not any(p == path for _, p in self.violations):
@@ -428,8 +430,8 @@ class Result:
             cov["notes"] = self.notes
         ev = {"property_id": self.prop, "tier": self.tier, "seed": self.seed, "level": self.level, "coverage": cov,
               "assumptions": self.assumptions, "wall_s": round(wall, 1), "violations": len(self.violations)}
-        os.makedirs(os.path.join(VERIF, "evidence"), exist_ok=True)
-        json.dump(ev, open(os.path.join(VERIF, "evidence", self.prop + ".json"), "w"), indent=1, sort_keys=True)
+        os.makedirs(EVID, exist_ok=True)
+        json.dump(ev, open(os.path.join(EVID, self.prop + ".json"), "w"), indent=1, sort_keys=True)
         log("%s %s tier=%s seed=%d: %d violation(s), %d known finding(s), %.0fs" %
             (self.prop, "FAIL" if self.violations else "ok", self.tier, self.seed, len(self.violations),
              len(self.known_hits), wall))
